@@ -248,6 +248,70 @@ func (m *Model) extractPratt() *prattModel {
 			}
 		}
 	}
+	// no registration table (the parse function is chosen by a function of the token type): evaluate the value
+	// parseExpression calls, for every token type
+	var semInfixCall *ssa.Call
+	if pe := m.Method("parser", "Parser", "parseExpression"); pe != nil && (len(pm.infix) == 0 || len(pm.prefix) == 0) {
+		for _, b := range pe.Blocks {
+			for _, in := range b.Instrs {
+				c, ok := in.(*ssa.Call)
+				if !ok || c.Call.StaticCallee() != nil || c.Call.IsInvoke() {
+					continue
+				}
+				sig, _ := c.Call.Value.Type().Underlying().(*types.Signature)
+				if sig == nil || sig.Results().Len() != 1 || sig.Params().Len() > 1 {
+					continue
+				}
+				infix := sig.Params().Len() == 1
+				if (infix && len(pm.infix) != 0) || (!infix && len(pm.prefix) != 0) {
+					continue
+				}
+				tab := map[string]*handler{}
+				good := true
+				for tv, tn := range pm.tokName {
+					var ip *Interp
+					if infix {
+						ip = m.parserInterp(-1, tv, pm.precLit, nil)
+					} else {
+						ip = m.parserInterp(tv, -1, pm.precLit, nil)
+					}
+					res, ok := ip.EvalValue(c.Call.Value, 0)
+					if !ok {
+						good = false
+						break
+					}
+					switch r := res.(type) {
+					case iNil:
+					case *iClosure:
+						fn := r.fn
+						if fn != nil && fn.Synthetic != "" {
+							if o, isF := fn.Object().(*types.Func); isF {
+								fn = m.Prog.FuncValue(o)
+							}
+						}
+						if fn == nil {
+							good = false
+						} else {
+							tab[tn] = &handler{fn: fn}
+						}
+					default:
+						good = false
+					}
+					if !good {
+						break
+					}
+				}
+				if !good || len(tab) == 0 {
+					continue
+				}
+				if infix {
+					pm.infix, semInfixCall = tab, c
+				} else {
+					pm.prefix = tab
+				}
+			}
+		}
+	}
 	// handler shapes
 	cache := map[*ssa.Function]*handler{}
 	for _, tab := range []map[string]*handler{pm.prefix, pm.infix} {
@@ -282,6 +346,9 @@ func (m *Model) extractPratt() *prattModel {
 				if _, p, ok := pathOf(lk.X); ok && p == ".infixParseFns" {
 					infixCall = c
 				}
+			}
+			if c == semInfixCall {
+				infixCall = c
 			}
 		}
 	}
@@ -545,10 +612,19 @@ func (m *Model) bpOf(pm *prattModel, v ssa.Value, consumed bool, pos token.Pos) 
 		return bpArg{kind: bpConst, val: c.Int64(), pos: pos}
 	}
 	// precedences[p.curToken.Type], directly or through a helper method that returns it
-	if m.isOwnPrecRead(v, 0) || m.ownPrecSemantic(pm, v) {
+	var eff []ssa.Instruction
+	if m.isOwnPrecRead(v, 0) || m.ownPrecSemantic(pm, v, &eff) {
 		// the read must happen before the operator is consumed; SSA places the
 		// read where the expression is evaluated, so check that no consuming call
-		// dominates the read
+		// dominates the read (when the token was first copied into a local node, the copy is the read)
+		if len(eff) > 0 {
+			for _, in := range eff {
+				if m.consumedBefore(in) {
+					return bpArg{kind: bpUnknown, pos: pos}
+				}
+			}
+			return bpArg{kind: bpOwn, pos: pos}
+		}
 		if in, ok := v.(ssa.Instruction); ok && m.consumedBefore(in) {
 			return bpArg{kind: bpUnknown, pos: pos}
 		}
@@ -1267,6 +1343,20 @@ func (m *Model) parserInterp(cur, peek int64, precLit map[int64]int64, registere
 			return nil, false
 		}
 		root, p, ok := pathOf(v)
+		if al, isAl := root.(*ssa.Alloc); ok && isAl {
+			// a field of a local node under construction (`exp.Token.Type` after `exp := &X{Token: p.curToken}`):
+			// the value stored there, read when it was stored
+			if sv, rest, st, fwd := m.forwardLocal(al, p, v); fwd {
+				if r2, p2, ok2 := pathOf(sv); ok2 {
+					root, p = r2, p2+rest
+					if ld, isLd := sv.(ssa.Instruction); isLd {
+						ip.effReads = append(ip.effReads, ld)
+					} else {
+						ip.effReads = append(ip.effReads, st)
+					}
+				}
+			}
+		}
 		if !ok || root == nil || !strings.HasSuffix(root.Type().String(), "parser.Parser") {
 			return nil, false
 		}
@@ -1344,13 +1434,16 @@ func (m *Model) globalMapWritten(pkg, name string) string {
 
 // ownPrecSemantic: for every token type T in the current-token position, v evaluates to the level
 // peekPrecedence() yields for T — i.e. v is "the precedence of the operator being parsed", however it is computed.
-func (m *Model) ownPrecSemantic(pm *prattModel, v ssa.Value) bool {
+func (m *Model) ownPrecSemantic(pm *prattModel, v ssa.Value, eff *[]ssa.Instruction) bool {
 	if pm.precPeek == nil || len(pm.precPeek) != len(pm.tokName) {
 		return false
 	}
 	for tv := range pm.tokName {
 		ip := m.parserInterp(tv, -1, pm.precLit, nil)
 		res, ok := ip.EvalValue(v, 0)
+		if eff != nil {
+			*eff = ip.effReads
+		}
 		rc, isC := res.(constant.Value)
 		if !ok || !isC || rc.Kind() != constant.Int {
 			return false
